@@ -376,3 +376,14 @@ def main_wrapper(fn):
               file=sys.stderr)
         sys.exit(2)
     sys.exit(rc)
+
+
+def pmap(fn, items, procs=14):
+    """Parallel map over processes (export side is pure Python/numpy)."""
+    import multiprocessing as mp
+    items = list(items)
+    if len(items) <= 1 or procs <= 1:
+        return [fn(x) for x in items]
+    ctx = mp.get_context('fork')
+    with ctx.Pool(min(procs, len(items))) as pool:
+        return pool.map(fn, items, chunksize=1)
